@@ -2,12 +2,15 @@ package file
 
 import (
 	"context"
+	"errors"
 	"io"
 
 	"github.com/ipld/go-ipld-prime"
 	"github.com/ipld/go-ipld-prime/adl"
 	"github.com/ipld/go-ipld-prime/datamodel"
 )
+
+var errNegativeSeek = errors.New("unixfs file: seek to a negative position")
 
 // NewUnixFSFile attempts to construct an ipld node from the base protobuf node representing the
 // root of a unixfs File.
@@ -96,16 +99,19 @@ func (f *singleNodeReader) Seek(offset int64, whence int) (int64, error) {
 		return 0, err
 	}
 
+	target := f.offset
 	switch whence {
 	case io.SeekStart:
-		f.offset = int(offset)
+		target = int(offset)
 	case io.SeekCurrent:
-		f.offset += int(offset)
+		target += int(offset)
 	case io.SeekEnd:
-		f.offset = len(buf) + int(offset)
+		target = len(buf) + int(offset)
 	}
-	if f.offset < 0 {
-		return 0, io.EOF
+	if target < 0 {
+		// leave the reader where it was
+		return 0, errNegativeSeek
 	}
+	f.offset = target
 	return int64(f.offset), nil
 }
